@@ -146,6 +146,46 @@ def _mutability(idx, node, f_or_cls):
     return "unknown"
 
 
+def _class_table_escapes(idx, cls, name):
+    """How a class-level mutable object can be changed or handed on: None when every use in the package only reads it."""
+    READ_METHODS = ("items", "keys", "values", "get", "index", "count", "copy")
+    READ_CALLS = ("len", "list", "tuple", "dict", "set", "frozenset", "sorted", "iter", "enumerate", "zip", "reversed", "any", "all", "sum", "min", "max", "isinstance")
+    for m_ in idx.modules.values():
+        par = {}
+        for n in ast.walk(m_.tree):
+            for ch in ast.iter_child_nodes(n):
+                par[ch] = n
+        for n in ast.walk(m_.tree):
+            hit = isinstance(n, ast.Attribute) and n.attr == name and isinstance(n.value, ast.Name) and n.value.id in ("self", "cls", cls.name)
+            if not hit:
+                continue
+            p = par.get(n)
+            where = f"line {n.lineno} of {m_.rel}"
+            if isinstance(n.ctx, (ast.Store, ast.Del)):
+                return f"it is rebound at {where}"
+            if isinstance(p, ast.Subscript) and p.value is n:
+                if isinstance(p.ctx, (ast.Store, ast.Del)):
+                    return f"an entry is written at {where}"
+                continue
+            if isinstance(p, ast.Attribute) and p.value is n:
+                pp = par.get(p)
+                if isinstance(pp, ast.Call) and pp.func is p and p.attr in READ_METHODS:
+                    continue
+                return f"`.{p.attr}` is applied to it at {where}"
+            if isinstance(p, (ast.For, ast.comprehension)) and p.iter is n:
+                continue
+            if isinstance(p, ast.Compare) and n in p.comparators and all(isinstance(o, (ast.In, ast.NotIn)) for o in p.ops):
+                continue
+            if isinstance(p, ast.Call) and n in p.args and isinstance(p.func, ast.Name) and p.func.id in READ_CALLS:
+                continue
+            if isinstance(p, ast.AugAssign) and p.target is n:
+                return f"it is updated in place at {where}"
+            if isinstance(p, ast.Starred):
+                continue
+            return f"the object itself is handed on at {where} (assigned, passed or returned), so a later in-place update reaches every instance"
+    return None
+
+
 def shared_state(rep, idx, rule="C19.9", classes=None):
     """A mutable object created once -- as a default argument (at definition time) or as a class attribute (at class
     creation) -- is shared by every call / every instance: state then leaks between components that must be independent."""
@@ -186,7 +226,13 @@ def shared_state(rep, idx, rule="C19.9", classes=None):
                 m = _mutability(idx, val, cls)
                 what = f"class attribute {cls.qual}.{t.id} = {ast.unparse(val)[:40]}"
                 if m == "mutable":
-                    rep.bad(rule, cls.site, what, "a mutable object created once with the class: all instances share it", line=st.lineno)
+                    esc = _class_table_escapes(idx, cls, t.id)
+                    if esc is None:
+                        rep.ok(rule, cls.site, what, "a table that is only ever read (indexed, iterated, tested for membership): sharing it "
+                               "between instances cannot be observed", nontrivial=False)
+                    else:
+                        rep.bad(rule, cls.site, what, f"a mutable object created once with the class: all instances share it, and {esc}",
+                                line=st.lineno)
                 elif m == "unknown":
                     rep.unk(rule, cls.site, what, "cannot tell whether the value is mutable")
     # [obj] * n: n references to one object
@@ -1219,6 +1265,16 @@ def check_optional(rep, f, c, e, conds, ln, local=()):
         check_optional(rep, f, c, e[1], conds, ln, local)
         check_optional(rep, f, c, e[2], conds, ln, tuple(local) + tuple(extra_t))
         check_optional(rep, f, c, e[3], conds, ln, tuple(local) + tuple(extra_f))
+        return
+    if k == 'gen' and len(e) >= 4:
+        # a comprehension: its `if` clauses guard the element
+        extra = []
+        for tgt, it, ifs in e[3]:
+            check_optional(rep, f, c, it, conds, ln, local)
+            for cnd in ifs:
+                extra.append(ir.split_neg(c.norm(cnd)))
+                check_optional(rep, f, c, cnd, conds, ln, tuple(local) + tuple(extra[:-1]))
+        check_optional(rep, f, c, e[2], conds, ln, tuple(local) + tuple(extra))
         return
     if k == 'call' and e[1] == ('name', 'getattr') and len(e[2]) == 2 and not e[3] and e[2][1][0] != 'const' and _is_bus(e[2][0]):
         need = ('call', ('name', 'hasattr'), (e[2][0], e[2][1]), ())
